@@ -198,7 +198,7 @@ func (s vfServer) YAML() string {
 // ---------------------------------------------------------------- generators
 
 var (
-	vfHostsBare   = []string{"a.com", "b.com", "x.a.com", "10.0.0.1", "a.com80"}
+	vfHostsBare   = []string{"a.com", "b.com", "x.a.com", "10.0.0.1", "a.com80", "B.com"}
 	vfHostRegexps = []string{`^[^.]+\.a\.com$`, `a`, `.*`, `^b\.com$`, `^10\.`, `80$`, `^a\.com$`, `^::1$`}
 	vfPathsPool   = []string{"/", "/a", "/a/b", "/ab", "/b", "/a/", "/a/b/c", "/b/a", "/a b"}
 	vfPathRegexps = []string{`^/a/(.*)$`, `/([a-z]+)`, `^/b$`, `^/(a|b)/?`, `.*`, `^/a`, `b$`}
@@ -651,6 +651,104 @@ func vfAcceptable(s vfServer, r vfReq, live map[string]bool) (map[string]vfOutco
 		}
 	}
 	return acc, len(acc) > 1
+}
+
+// vfConsistent filters the readings that explain an observed outcome: whatever the open readings
+// are, the code implements ONE of them, so all answers of one server must fit a single choice.
+func vfConsistent(choices []vfChoice, s vfServer, r vfReq, live map[string]bool, got string) []vfChoice {
+	var out []vfChoice
+	for _, c := range choices {
+		for _, o := range vfRouteNoIP(s, r, live, c) {
+			if o.key() == got {
+				out = append(out, c)
+				break
+			}
+		}
+	}
+	return out
+}
+
+// vfBothProbes builds, for every path entry with a header condition that has values AND a regexp,
+// requests aimed at that entry (its rule's host, its path, an allowed method) whose header value is
+// (a) listed but rejected by the regexp, (b) accepted by the regexp but not listed, (c) both, (d)
+// neither: together they tell the readings of such a condition apart.
+func vfBothProbes(s vfServer) []vfReq {
+	cands := []string{"1", "2", "", "a b", "12", "3", "21", "a"}
+	var out []vfReq
+	for _, rule := range s.Rules {
+		host := rule.Host
+		if host == "" {
+			host = "c.org"
+			if rule.HostRegexp != "" {
+				host = ""
+				for _, h := range append(append([]string{}, vfHostsBare...), "::1", "c.org") {
+					if vfHostMatches(rule, h) {
+						host = h
+						break
+					}
+				}
+				if host == "" {
+					continue
+				}
+			}
+		}
+		if host == "::1" {
+			host = "[::1]:80"
+		}
+		for _, p := range rule.Paths {
+			path := p.Path
+			if path == "" {
+				path = p.Prefix
+			}
+			if path == "" {
+				for _, c := range vfPathsPool {
+					if vfPathMatches(p, c) {
+						path = c
+						break
+					}
+				}
+			}
+			if path == "" {
+				continue
+			}
+			method := "GET"
+			if len(p.Methods) > 0 {
+				method = p.Methods[0]
+			}
+			for hi, h := range p.Headers {
+				if len(h.Values) == 0 || h.Regexp == "" {
+					continue
+				}
+				re := regexp.MustCompile(h.Regexp)
+				seen := map[[2]bool]bool{}
+				for _, v := range append(append([]string{}, h.Values...), cands...) {
+					k := [2]bool{vfIn(v, h.Values), re.MatchString(v)}
+					if seen[k] {
+						continue
+					}
+					seen[k] = true
+					r := vfReq{Method: method, Host: host, Path: path, Remote: "192.0.2.1:1234"}
+					r.Headers = append(r.Headers, [2]string{h.Key, v})
+					// the other conditions of a matchAll entry get a value they accept under every reading
+					for oi, o := range p.Headers {
+						if oi == hi || o.Key == h.Key {
+							continue
+						}
+						for _, ov := range append(append([]string{}, o.Values...), cands...) {
+							okV := len(o.Values) == 0 || vfIn(ov, o.Values)
+							okR := o.Regexp == "" || regexp.MustCompile(o.Regexp).MatchString(ov)
+							if okV && okR {
+								r.Headers = append(r.Headers, [2]string{o.Key, ov})
+								break
+							}
+						}
+					}
+					out = append(out, r)
+				}
+			}
+		}
+	}
+	return out
 }
 
 func vfKeys(m map[string]vfOutcome) []string {
